@@ -316,6 +316,40 @@ class RefInterp(ObjInterp):
                 return True
         return None
 
+    def check_pointer_cast(self, expr, at, st, fr):
+        """the pointer stored into a handle comes from a pointer to ANOTHER class (the pointer member of a handle of a different
+        pointee type): it must be converted by the language's pointer conversion (implicit / static_cast derived-to-base), which
+        applies the base-class offset.  reinterpret_cast, a C-style cast that is a bit cast, or a round trip through void* keep
+        the address unchanged: for a ref-counted base that is not at offset 0 the handle points at the wrong address"""
+        tu = self.tu
+        if self._cur is None:
+            return
+        n, bad, final_ct = expr, None, None
+        for _ in range(12):
+            if n is None:
+                break
+            k = n.get('kind')
+            if k in ('ImplicitCastExpr', 'CXXStaticCastExpr', 'CStyleCastExpr', 'CXXFunctionalCastExpr', 'CXXReinterpretCastExpr',
+                     'CXXConstCastExpr', 'ParenExpr', 'ExprWithCleanups', 'MaterializeTemporaryExpr'):
+                if final_ct is None and is_ptr_ct(tu.sd(n).get('ct')):
+                    final_ct = tu.sd(n).get('ct')
+                if k == 'CXXReinterpretCastExpr' or n.get('castKind') == 'BitCast':
+                    bad = bad or ('reinterpret_cast' if k == 'CXXReinterpretCastExpr' else
+                                  'cast through `%s` (a bit cast)' % tu.sd(n).get('ct'))
+                n = tu.kids(n)[-1] if tu.kids(n) else None
+                continue
+            break
+        base = tu.strip(expr, casts=True)
+        if bad is None or base is None or not self.is_field(base) or final_ct is None:
+            return
+        pointee = lambda ct: (ct or '').replace('const', '').replace('volatile', '').replace('*', '').strip()
+        src_t, dst_t = pointee(tu.sd(base).get('ct')), pointee(final_ct)
+        if src_t and dst_t and src_t != dst_t:
+            self.report('unadjusted-pointer-cast', 'the pointer of a handle to `%s` is turned into a `%s *` by a %s: the address is taken over '
+                        'unchanged, without the derived-to-base adjustment - when `%s` is not at offset 0 inside `%s` the new handle points '
+                        'at the wrong address and refInc()/refDec() count on memory that is not the object\'s counter; use the implicit '
+                        'conversion or static_cast' % (src_t, dst_t, bad, dst_t, src_t), at, fr, st)
+
     def check_untyped(self, e, ks, st, fr):
         """pointer members of handles with *different* pointee types must be compared after the language's pointer conversion to
         a common type (implicit derived-to-base, static_cast to the base); going through void* / an integer / reinterpret_cast
@@ -468,6 +502,7 @@ class RefInterp(ObjInterp):
                 ks = init_exprs(tu, fd) if fd is not None else []
                 v = self.pval(ks[-1], st, fr) if ks else 'undef'
             elif init is not None:
+                self.check_pointer_cast(init, init, st, fr)
                 v = self.pval(init, st, fr)
             if v is None or isinstance(v, tuple):
                 self.und('initialiser of the pointer member not understood at %s' % tu.loc(init))
@@ -562,6 +597,8 @@ class RefInterp(ObjInterp):
                 self.und('assignment to the pointer member of an untracked handle at %s' % tu.loc(n))
                 return [st]
             self.touch_handle(loc, n, st, fr)
+            if loc[0] == 'h':
+                self.check_pointer_cast(ks[1], n, st, fr)
             v = self.pval(ks[1], st, fr)
             if v is None or isinstance(v, tuple):
                 self.und('value assigned to a tracked pointer not understood at %s: %s' % (tu.loc(n), tu.show(n)))
